@@ -118,7 +118,10 @@ class ComponentsFileSystemFinder(BaseFinder):
             path = path.removeprefix(prefix)
         path = safe_join(root, path)
 
-        if os.path.exists(path) and self._is_path_valid(path):
+        # Validate the path relative to the component directory - the same string that `list()` checks -
+        # so that both entry points agree on which files are exposed.
+        rel_path = os.path.relpath(path, root)
+        if os.path.exists(path) and self._is_path_valid(rel_path):
             return path
         return None
 
